@@ -303,6 +303,12 @@ func (r *run) applyRemote(sym string, pkt drpcwire.Packet) (proceeds bool) {
 		return true
 	}
 	if sym == RUC {
+		// ignored, but like every non-message packet it is looked at under the state lock
+		if m.muHeld {
+			m.readerOnMu = true
+			m.readerMuSym = sym
+			return false
+		}
 		return true
 	}
 	if sym == RM {
